@@ -148,6 +148,11 @@ def main():
     have_hooks = hasattr(tmod, "_VERIF_SYNC")
     if have_hooks:
         tmod._VERIF_SYNC = sync
+    if position == "dies_at_claim":
+        import inspect
+        if not have_hooks or "grader:decided" not in inspect.getsource(tmod.timeout):
+            write_obs({"scenario": sc, "have_hooks": have_hooks, "no_hook": "grader:decided", "notes": []})
+            os._exit(0)
 
     MAIN_REPORT.clear()
     contextualize_report(PROGRAMS[program])
